@@ -4,6 +4,7 @@
 
 pub mod micro;
 pub mod pragen;
+pub mod refvalidate;
 pub mod replay;
 pub mod rng;
 pub mod run;
